@@ -20,23 +20,24 @@ def ob(name, ni, ng, nt, two_cycles, timeout):
              "memcmp#0": 5, "strncmp#0": 5, "strcmp#0": 5, "strlen#0": 5,
              "DLIST_MIR_insn_t_el#0": w + 2, "DLIST_MIR_insn_t_el#1": w + 2,
              "memcpy#0": CELLS + 1, "memcpy#1": 2, "memset#0": 2, "memset#1": 2, "bitmap_expand#0": 2}
-    defs = BUILD + ["H_NI=%d" % ni, "H_NG=%d" % ng, "H_NT=%d" % nt] + ([] if two_cycles else ["H_ONE_CYCLE"])
+    defs = BUILD + ["H_NI=%d" % ni, "H_N_EXACT", "H_NG=%d" % ng, "H_NT=%d" % nt] + ([] if two_cycles else ["H_ONE_CYCLE"])
     return Ob(name, "C16/duprest.c", defs=defs, loops=loops, unwind=2, object_bits=12, flags=["--slice-formula"], timeout=timeout,
-              sample="function of 1..%d insns, each any of {label, jmp, bt, switch over two labels, laddr, add}, 0..2 lref items on "
+              sample="function of exactly %d insns, each any of {label, jmp, bt, switch over two labels, laddr, add}, 0..2 lref items on "
                      "arbitrary labels; generator: <= %d operations from {delete, insert label/add before/after, rewrite operand, retarget "
                      "label} at arbitrary positions and <= %d temporary registers of arbitrary type; %s"
                      % (ni, ng, nt, "then a second cycle with <= 1 operation and <= 1 temporary" if two_cycles else "one cycle"))
 
 
 def obligations(tier):
+    """one obligation per function length (the length is concrete per obligation, the shape of every insn symbolic)"""
     if tier == "quick":
-        return [ob("duprest.n3.g2.t2.cycle1", 3, 2, 2, False, 900), ob("duprest.n2.g1.t1.cycle2", 2, 1, 1, True, 900)]
-    return [ob("duprest.n5.g3.t3.cycle1", 5, 3, 3, False, 3000), ob("duprest.n4.g2.t2.cycle2", 4, 2, 2, True, 3000),
-            ob("duprest.n3.g2.t2.cycle1", 3, 2, 2, False, 1200), ob("duprest.n2.g1.t1.cycle2", 2, 1, 1, True, 1200)]
+        return [ob("duprest.n%d.g2.t2.cycle1" % n, n, 2, 2, False, 1800) for n in (1, 2, 3)] + [ob("duprest.n2.g1.t1.cycle2", 2, 1, 1, True, 1800)]
+    return [ob("duprest.n%d.g3.t3.cycle1" % n, n, 3, 3, False, 3600) for n in (1, 2, 3, 4, 5)] \
+        + [ob("duprest.n%d.g2.t2.cycle2" % n, n, 2, 2, True, 3600) for n in (2, 3, 4)]
 
 
 META = {
-    "bounds": {"insns": "<= 5 (thorough) / <= 3 (quick)", "generator operations per cycle": "<= 3 / <= 2", "temporary registers per cycle": "<= 3 / <= 2",
+    "bounds": {"insns": "1..5 (thorough) / 1..3 (quick), one obligation per length", "generator operations per cycle": "<= 3 / <= 2", "temporary registers per cycle": "<= 3 / <= 2",
                "cycles": "2 (second cycle with <= 1 operation, <= 1 temporary)", "operands per insn": "<= 3", "lref items": "<= 2",
                "hash table model capacity": 12},
     "assumptions": [
